@@ -9,12 +9,13 @@ and on a DataFrame, `from_pointisotherm`, `modelling.model_iso`, `pygaps.model_i
 error-from-cost (`costErrSq`) differs from the reported error for every robust loss.
 
 Quantifier of the oracles: every clause is exercised with the documented pass-through arguments (`optimization_params`: loss, f_scale,
-max_nfev, ftol/xtol/gtol, method, x_scale, jac, tr_solver, verbose, Virial `add_point`; `param_guess`; `param_bounds` that are ACTIVE,
-i.e. exclude the unconstrained optimum; `verbose`), on either branch, through every constructor / entry point.
+max_nfev, ftol/xtol/gtol, method, x_scale, jac, tr_solver, verbose, Virial `add_point` - alone and in the dictionary shared by a list of
+candidates; `param_guess` for all or some of the parameters; `param_bounds` that are ACTIVE, i.e. exclude the unconstrained optimum;
+`verbose` with every model, also in lists), on either branch, through every constructor / entry point.
 """
 import math
 
-from pgv.charlib import q, qlist, quiet_logging
+from pgv.charlib import optq, q, qlist, quiet_logging
 from pgv.core import import_pygaps
 from pgv.models import REL_ONLY, logu, make, relerr, sample_params
 
@@ -80,7 +81,10 @@ def run(ck):
         """documented pass-through to scipy.optimize.least_squares (every option that is allowed together with bounds);
         `res_scale` = size of a typical residual, so that a robust loss really bends.
         `one_param`: a one-parameter model (Henry) may receive the options: scipy 1.18 `least_squares(method='trf', tr_solver='lsmr')` raises
-        IndexError for a single variable (reproduced without pyGAPS), so 'lsmr' then comes with method='dogbox' only."""
+        IndexError for a single variable whenever its first trust-region step is not the Gauss-Newton step (reproduced without pyGAPS:
+        least_squares(lambda x: x[0]*p - l, [1e-3], bounds=([0], [inf]), tr_solver='lsmr')), so 'lsmr' then comes with method='dogbox' only.
+        Triage T-C12 item 7: an option combination that scipy itself cannot run is outside "models with a well-posed fit"; no clause of C12
+        speaks about a fit that was never made (not a finding of pyGAPS, the region stays out)."""
         if rng.random() > p_any:
             return None
         o = {}
@@ -109,6 +113,52 @@ def run(ck):
     def cp(o):
         """a fresh copy for every call (Virial.fit pops `add_point` from the caller's dictionary)"""
         return dict(o) if o else None
+
+    def partial_guess(g):
+        """a starting guess for SOME of the parameters (the documented `param_guess` is a dictionary; nothing requires every key): in 35 % of
+        the guesses one to all-but-one entries are kept"""
+        if len(g) < 2 or rng.random() > 0.35:
+            return g
+        keep = rng.sample(sorted(g), rng.randint(1, len(g) - 1))
+        return {k: g[k] for k in sorted(g) if k in keep}
+
+    import scipy.optimize as _so
+
+    def start_vector(fn):
+        """the x0 that the library hands to scipy.optimize.least_squares during fn() (None when the optimiser is never reached); the outcome
+        of fn() itself is not looked at here"""
+        seen, orig = [], _so.least_squares
+
+        def rec(*a, **k):
+            seen.append(np.array(k["x0"] if "x0" in k else a[1], dtype=float).copy())
+            return orig(*a, **k)
+        _so.least_squares = rec
+        try:
+            fn()
+        except Exception:  # noqa
+            pass
+        finally:
+            _so.least_squares = orig
+        return seen[0] if seen else None
+
+    def start_is_the_guess(name, make_iso, kw, sig, detail):
+        """where the caller gives a starting guess the fit starts there, elsewhere at the model's default guess (Model/Fit.startGuess; the
+        default is observed on the same call without `param_guess`)"""
+        names = list(get_isotherm_model(name).param_names)
+        user = [kw["param_guess"].get(k) for k in names]
+        quiet = {k: v for k, v in kw.items() if k != "verbose"}
+        x0 = start_vector(lambda: make_iso({k: (dict(v) if isinstance(v, dict) else v) for k, v in quiet.items()}))
+        x0d = start_vector(lambda: make_iso({k: (dict(v) if isinstance(v, dict) else v) for k, v in quiet.items() if k != "param_guess"}))
+        if x0 is None or x0d is None or len(x0) != len(names) or len(x0d) != len(names):
+            return
+        ck.count(("start", name, tuple(user)), nontrivial=False, bucket="start vector of a fit with a " + ("partial" if None in user else "complete") + " guess")
+        want = [x0d[j] if user[j] is None else float(user[j]) for j in range(len(names))]
+        if not all(float(a) == float(b) for a, b in zip(x0, want)):
+            ck.fail_case({**sig, "clause": "the fit does not start from the caller's guess (where given) and the default guess (elsewhere)"},
+                         {**detail, "parameters": names, "start_vector": x0.tolist(), "default_guess": x0d.tolist(), "caller_guess": user})
+        if np.all(np.isfinite(x0)) and np.all(np.isfinite(x0d)):
+            lines.append(f"start {qlist(x0d)} [{';'.join(optq(u) for u in user)}]")
+            plan.append(("start", [float(v) for v in x0], None, None, None))
 
     def badly_scaled(ps, ld):
         """known finding S33: least_squares with unscaled variables and an absolute gtol stops early when the numbers are badly scaled"""
@@ -219,6 +269,16 @@ def run(ck):
                 noisy = np.maximum.accumulate(noisy)          # else: scatter may put the largest loading before the last point
             if not max(noisy) > min(noisy):
                 continue
+            add_pt = None
+            if name == "Virial" and rng.random() < 0.4:
+                add_pt = rng.random() < 0.8
+                if add_pt and rng.random() < 0.6:
+                    # the option is ACTIVE: at most two points below half of the largest loading, so that the fit needs the added point
+                    low = np.flatnonzero(noisy < 0.5 * max(noisy))
+                    keep = np.ones(len(noisy), dtype=bool)
+                    keep[low[:max(0, len(low) - 2)]] = False
+                    if keep.sum() >= 6:
+                        ps, ld, noisy = ps[keep], ld[keep], noisy[keep]
             detail = {"params": par, "pressure": ps.tolist(), "loading": noisy.tolist()}
             kw = {}
             user_bounds = None
@@ -233,23 +293,49 @@ def run(ck):
                 kw["param_guess"] = {k: v * rng.uniform(0.8, 1.25) for k, v in par.items()}
                 for k0, (lo, hi) in (user_bounds or {}).items():
                     kw["param_guess"][k0] = lo + rng.uniform(0.05, 0.95) * (hi - lo)      # a user guess inside the user bounds
+                kw["param_guess"] = partial_guess(kw["param_guess"])
             # documented pass-through options of the optimiser: the clauses hold whatever is passed
             res_scale = 0.03 * (1.0 if name == "Virial" else float(max(noisy)) if gen.calculates == "loading" else float(max(ps)))
             opts = sample_options(res_scale, 0.5, one_param=len(par) == 1)
-            if name == "Virial" and rng.random() < 0.4:
-                opts = {**(opts or {}), "add_point": rng.random() < 0.8}
+            if add_pt is not None:
+                opts = {**(opts or {}), "add_point": add_pt}
             if opts:
                 kw["optimization_params"] = cp(opts)
                 sig = {**sig, "options": sorted(opts)}
                 detail = {**detail, "optimization_params": dict(opts)}
             if user_bounds or "param_guess" in kw:
                 detail = {**detail, "param_bounds": user_bounds, "param_guess": kw.get("param_guess")}
+                if "param_guess" in kw and len(kw["param_guess"]) < len(par):
+                    sig = {**sig, "user_guess": "partial"}
+                    ck.count(("noisy-partial-guess", name, i), nontrivial=False, bucket="error identity with a guess for some parameters only")
+            if rng.random() < 0.08:
+                kw["verbose"] = True                                # the fit is reported and drawn (every model, also the pressure-explicit ones)
+                sig = {**sig, "verbose": True}
             ck.count(("noisy", name, i), bucket="error identity:" + name)
             if opts:
                 ck.count(("noisy-opt", name, i), nontrivial=False, bucket="error identity with optimization_params" + (" (robust loss)" if opts.get("loss", "linear") != "linear" else ""))
             try:
+                frozen = {k: (dict(v) if isinstance(v, dict) else v) for k, v in kw.items()}
                 m_iso = pg.ModelIsotherm(pressure=ps, loading=noisy, model=name, **kw, **common(name))
+                if kw.get("verbose"):
+                    close_figures()
                 reported_error_ok(m_iso, ps, noisy, sig, detail)
+                if rng.random() < 0.15 or "add_point" in (opts or {}):
+                    # the same call once more with the very same argument objects (a fit that consumes or rewrites the caller's dictionaries
+                    # makes the second call another one): the optimiser is deterministic, the result must be identical
+                    ck.count(("noisy-repeat", name, i), nontrivial=False, bucket="same call repeated with the same argument objects")
+                    try:
+                        again = pg.ModelIsotherm(pressure=ps, loading=noisy, model=name, **kw, **common(name))
+                        dev = max([relerr(float(again.model.params[k]), float(v)) for k, v in m_iso.model.params.items()] + [relerr(float(again.model.rmse), float(m_iso.model.rmse))])
+                        second = None if dev <= 1e-12 else {"parameters": {k: float(v) for k, v in again.model.params.items()}, "error": float(again.model.rmse)}
+                    except Exception as e2:  # noqa
+                        second = {"raises": repr(e2)[:300]}
+                    if kw.get("verbose"):
+                        close_figures()
+                    if second is not None:
+                        ck.fail_case({**sig, "clause": "the same call repeated with the same argument objects gives another fit"},
+                                     {**detail, "arguments_changed_by_the_call": kw != frozen, "arguments_before": str(frozen)[:400], "arguments_after": str(kw)[:400], "first": {"parameters": {k: float(v) for k, v in m_iso.model.params.items()}, "error": float(m_iso.model.rmse)},
+                                      "second": second})
                 for k, v in m_iso.model.params.items():
                     lo, hi = (user_bounds or {}).get(k, m_iso.model.param_bounds[k])
                     if not (lo - 1e-12 * abs(lo) <= v <= hi + 1e-12 * abs(hi)):
@@ -259,6 +345,8 @@ def run(ck):
                 ck.count(("noisy-refused", name, i), nontrivial=False, bucket="noisy fit refused:" + name)
             except Exception as e:  # noqa
                 ck.fail_case({**sig, "clause": "fit raises a non-pyGAPS error", "error": type(e).__name__}, {**detail, "kwargs": str(kw)[:200], "error": repr(e)[:300]})
+            if "param_guess" in kw and (len(kw["param_guess"]) < len(par) or rng.random() < 0.4):
+                start_is_the_guess(name, lambda k2: pg.ModelIsotherm(pressure=ps, loading=noisy, model=name, **k2, **common(name)), kw, sig, detail)
 
     lap("exact + noisy fits")
     # -------------------------------------------------------------------- best of a list
@@ -520,9 +608,12 @@ def run(ck):
             opts = sample_options(0.02 * float(np.max(bl)), 1.0)
         elif r < 0.45:
             opts = {"max_nfev": rng.choice([1, 2, 3, 5, 8])}         # most or all candidates are refused
+        # `add_point` is the Virial fit's own key of optimization_params ("You can pass add_point=True in optimization_params"); a list that
+        # contains Virial receives it in the one dictionary that every candidate of the list is fitted with
+        opts_virial = {**(opts or {}), "add_point": rng.random() < 0.85} if rng.random() < 0.5 else opts
         df = as_frame(d, rng.random() < 0.5, rng.random() < 0.3)
         piso = as_point(d, cm)
-        single = {m: outcome(m, bp, bl, br, opts, cm) for m in ALL}
+        single = {m: outcome(m, bp, bl, br, opts_virial if m == "Virial" else opts, cm) for m in ALL}
         okm = sorted((m for m in ALL if single[m][0] == "ok"), key=lambda m: single[m][1])
         bad = [m for m in ALL if single[m][0] == "refused"]
         for m in ALL:
@@ -532,11 +623,17 @@ def run(ck):
         usable = [m for m in ALL if single[m][0] != "error"]
         kinds = ["random", "failed-first", "failed-before-best", "failed-between", "failed-last"]
         rng.shuffle(kinds)
-        kinds = kinds[:ck.n(3, 5)] + (["guess"] if i % 3 == 0 else []) + (["all-failed"] if bad and i % 4 == 1 else [])
+        kinds = kinds[:ck.n(3, 5)] + ["pressure-explicit"] + (["guess"] if i % 3 == 0 else []) + (["all-failed"] if bad and i % 4 == 1 else [])
         for kind in kinds:
             if kind == "guess":
                 models = "guess"
                 cands = list(_GUESS_MODELS)
+            elif kind == "pressure-explicit":
+                # loading-explicit and pressure-explicit candidates in one list, in any order (the candidates share the options and, when the
+                # call is verbose, one figure)
+                cands = rng.sample([m for m in usable if m not in ("Virial", "FHVST", "WVST")], rng.randint(1, 3)) + ["Virial"] + [m for m in ("FHVST", "WVST") if m in usable and rng.random() < 0.3]
+                rng.shuffle(cands)
+                models = list(cands)
             elif kind == "all-failed":
                 cands = rng.sample(bad, min(len(bad), rng.randint(1, 3)))
                 models = list(cands)
@@ -567,29 +664,37 @@ def run(ck):
                 continue
             entry = entry_names[turn % len(entry_names)]
             turn += 1
-            # TODO(candidate defect, reported): ModelIsotherm.guess(..., verbose=True) raises ValueError from graphing.plot_model_guesses as soon as a
-            # loading model and Virial both converge (Virial.loading does not accept the array of pressures); verbose lists stay without Virial
-            # and CalculationError when FHVST / WVST "converge" on meaningless parameters (their numerical loading() fails inside the plot): verbose
-            # lists are generated without the models whose loading is found numerically
-            vb = rng.random() < 0.12 and not any(m in ("Virial", "FHVST", "WVST") for m in cands)
+            # verbose lists contain every model, also those whose loading() is found numerically (findings S45-C12a/b, repaired: the plot of
+            # the attempts evaluated Virial / FHVST / WVST on the pressure points)
+            vb = rng.random() < (0.5 if kind == "pressure-explicit" else 0.2)
+            with_virial = any(m.lower() == "virial" for m in cands)
+            opts_call = opts_virial if with_virial else opts
             conv = [(j, single[m][1]) for j, m in enumerate(cands) if single[m][0] == "ok"]
             expect = min(conv, key=lambda t: (t[1], t[0]))[0] if conv else None
             has_bad_before = expect is not None and any(single[m][0] == "refused" for m in cands[:expect])
             ck.count(("list", i, kind, entry), bucket="best of list via " + entry, sample={"entry": entry, "candidates": list(cands), "branch": br} if i == 0 else None)
             ck.count(("list-kind", i, kind), nontrivial=False, bucket="best of list: " + ("a refused candidate stands before the best one" if has_bad_before else "no candidate converges" if expect is None else
                                                                                          "refused candidates elsewhere" if len(conv) < len(cands) else "every candidate converges"))
-            sig = {"entry": entry, "branch": br, "options": sorted(opts) if opts else None}
+            sig = {"entry": entry, "branch": br, "options": sorted(opts_call) if opts_call else None, "verbose": vb}
             detail = {"candidates": list(models) if models != "guess" else "guess", "candidate_errors_in_order": [[m, single[m][1] if single[m][0] == "ok" else "refused"] for m in cands],
-                      "optimization_params": opts, "pressure": bp.tolist(), "loading": bl.tolist(), "generator": d["generator"], "list_kind": kind}
+                      "optimization_params": opts_call, "pressure": bp.tolist(), "loading": bl.tolist(), "generator": d["generator"], "list_kind": kind}
+            if vb:
+                ck.count(("list-verbose", i, kind), nontrivial=False, bucket="best of list, verbose" + (" (with a model whose loading is numerical)" if any(m in ("Virial", "FHVST", "WVST") for m in cands) else ""))
+            if with_virial and opts_call and "add_point" in opts_call:
+                ck.count(("list-add-point", i, kind), nontrivial=False, bucket="best of list with Virial's add_point in the shared options" + (" (a least-squares model stands before Virial)" if cands[0] != "Virial" else ""))
             try:
-                best = entries[entry](d, df, piso, cm, br, models, opts, vb)
+                best = entries[entry](d, df, piso, cm, br, models, opts_call, vb)
                 got = [j for j, m in enumerate(cands) if m == best.model.name]
                 got = got[0] if got else -1
                 if vb:
                     close_figures()
             except CalculationError:
                 got = None
+                if vb:
+                    close_figures()
             except Exception as e:  # noqa
+                if vb:
+                    close_figures()
                 ck.fail_case({**sig, "clause": "guess raises a non-pyGAPS error", "error": type(e).__name__, "refused_before_best": has_bad_before}, {**detail, "error": repr(e)[:300]})
                 continue
             lines.append("guess [" + ";".join(q(single[m][1]) if single[m][0] == "ok" else "~" for m in cands) + "]")
@@ -657,7 +762,7 @@ def run(ck):
             g = {k: (v * rng.uniform(0.8, 1.25) if v != 0 else 0.01) for k, v in star.items()}
             for k0, (lo, hi) in (user_bounds or {}).items():
                 g[k0] = lo + rng.uniform(0.05, 0.95) * (hi - lo)
-            kw["param_guess"] = g
+            kw["param_guess"] = partial_guess(g)
         opts = sample_options(0.03 * float(np.max(bl)), 0.5, one_param=model == "Henry")
         vb = rng.random() < 0.15
         ref = outcome(model, bp, bl, br, opts, cm, **{k: (dict(v) if isinstance(v, dict) else v) for k, v in kw.items() if k != "model"})
@@ -667,7 +772,7 @@ def run(ck):
             turn += 1
             ck.count(("entry", i, entry), bucket="single model via " + entry + ":" + br)
             sig = {"entry": entry, "model": model, "branch": br, "options": sorted(opts) if opts else None,
-                   "user_bounds": user_bounds is not None, "user_guess": "param_guess" in kw}
+                   "user_bounds": user_bounds is not None, "user_guess": ("partial" if len(kw["param_guess"]) < len(star) else True) if "param_guess" in kw else False}
             detail = {"pressure": bp.tolist(), "loading": bl.tolist(), "other_branch": [x.tolist() for x in d["ads" if br == "des" else "des"]],
                       "param_bounds": user_bounds, "param_guess": kw.get("param_guess"), "optimization_params": opts, "unconstrained_fit": star}
             call_kw = {k: (dict(v) if isinstance(v, dict) else v) for k, v in kw.items()}
@@ -708,6 +813,8 @@ def run(ck):
                 ck.fail_case({**sig, "clause": "entry point does not fit the requested branch with the arguments passed", "what": "constructor refuses"}, detail)
             if entry != "ModelIsotherm(DataFrame)":
                 keeps_properties(got, cm, entry)
+            if "param_guess" in kw and len(kw["param_guess"]) < len(star):
+                start_is_the_guess(model, lambda k2, entry=entry: single_entries[entry](d, df, piso, cm, br, k2), call_kw, sig, detail)
 
     lap("single model through entry points")
     # ==================================================================== models that calculate pressure: point isotherm from loading points; Virial with an added point
@@ -740,8 +847,11 @@ def run(ck):
             ck.fail_case({"clause": "generated point isotherm loses metadata or units", "model": name, "key": sorted(missing)[0]}, {"differences": missing})
         if name == "Virial":
             # one pressure point: the loading is found numerically (Nelder-Mead started at x0 = pressure).
-            # TODO(known finding S24 of C10): outside 0.5 <= loading/pressure <= 10 the search ends on non-roots although success is reported, and an
-            # array of more than one pressure raises ValueError; only the region where the start value is adequate is generated here
+            # Not generated, by decision of the triage (T-C12 item 5): C12's clause "a point isotherm generated from a model isotherm lies on the
+            # model" is quantified over the ten models with a well-posed fit, all loading-explicit; Virial is outside it.  What Virial.loading does
+            # with other arguments belongs to C10 (known finding S24 there: outside 0.5 <= loading/pressure <= 10 the search ends on non-roots
+            # although success is reported; an array of more than one pressure raises ValueError - numerical inverses take one number, C10 does
+            # not demand arrays of them).  Only the region where the start value is adequate is generated here.
             ok_pts = [j for j in range(len(lds)) if 0.5 <= lds[j] / want_p[j] <= 10]
             if ok_pts:
                 j = rng.choice(ok_pts)
@@ -765,7 +875,6 @@ def run(ck):
         v = rng.choice([lo if math.isfinite(lo) else -7.0, hi if math.isfinite(hi) else 9.0, rng.uniform(-3, 8)])
         base.param_bounds["K"] = (lo, hi)
         got = base.initial_guess_bounds({"K": v})["K"]
-        from pgv.charlib import optq
         lines.append(f"clamp {optq(lo if math.isfinite(lo) else None)} {optq(hi if math.isfinite(hi) else None)} {q(v)}")
         plan.append(("clamp", float(got), None, None, None))
         ck.count(("clamp", lo, hi, v), nontrivial=False, bucket="initial guess clamp")
@@ -779,7 +888,7 @@ def run(ck):
         replies = None
         ck.broken.append({"step": "driver Fit", "what": str(e)[:600]})
     if replies is not None:
-        from pgv.charlib import parse_q
+        from pgv.charlib import parse_q, parse_qlist
         for (what, a, res, rng_, rep_err), rep, line in zip(plan, replies, lines):
             t = rep.split()
             ck.count(("corr", what), nontrivial=False, bucket="correspondence:" + what)
@@ -791,6 +900,8 @@ def run(ck):
                 ok = (t[0] == "none" and a == -2) or (t[0] == "ok" and int(t[1]) == a)
             elif what == "branch":
                 ok = t[0] == "ok" and [int(x) for x in t[1][1:-1].split(";") if x] == a
+            elif what == "start":
+                ok = t[0] == "ok" and [float(x) for x in parse_qlist(t[1])] == a
             else:
                 ok = t[0] == "ok" and float(parse_q(t[1])) == a
             if not ok:
@@ -802,12 +913,14 @@ def run(ck):
     ck.cov["correspondence_disagreements"] = n_dis
     ck.cov["worst"] = {k: float(f"{v:.3g}") for k, v in sorted(worst.items())}
     ck.cov["rule"] = ("10 well-posed models x generating parameters in bounds x grids of 8-60 points spanning low coverage to near saturation (exact data); all 16 models on noisy data (3 %) with user bounds "
-                      "(around the optimum and ACTIVE ones that exclude it), user guesses and optimization_params (loss, f_scale, max_nfev, ftol/xtol/gtol, method, x_scale, jac, tr_solver, verbose, Virial add_point) for the error "
-                      "identity and bounds; candidate lists of 1-6 of all 16 models and 'guess' with refused candidates first / between / immediately before the best / last / everywhere, through ModelIsotherm.guess (arrays, "
-                      "DataFrame), from_pointisotherm, modelling.model_iso, on either branch, fed to Model/Fit.guessIdx in candidate order; one model through every entry point (constructor, from_pointisotherm, model_iso, "
-                      "from_isotherm) with branch, active bounds, guesses, options, verbose; two-branch data with and without a branch column; point<->model conversion (pressure points; loading points for the "
+                      "(around the optimum and ACTIVE ones that exclude it), user guesses (for all or for some of the parameters) and optimization_params (loss, f_scale, max_nfev, ftol/xtol/gtol, method, x_scale, jac, "
+                      "tr_solver, verbose, Virial add_point with data that need the point) for the error identity and bounds, verbose, the same call repeated with the same argument objects; candidate lists of 1-6 of all 16 "
+                      "models and 'guess' with refused candidates first / between / immediately before the best / last / everywhere, verbose with every model, Virial's add_point in the shared options, through "
+                      "ModelIsotherm.guess (arrays, DataFrame), from_pointisotherm, modelling.model_iso, on either branch, fed to Model/Fit.guessIdx in candidate order; one model through every entry point (constructor, "
+                      "from_pointisotherm, model_iso, from_isotherm) with branch, active bounds, full and partial guesses, options, verbose; two-branch data with and without a branch column; point<->model conversion (pressure points; loading points for the "
                       "pressure-explicit models) and refits in 5 pressure x 3 loading units and degC")
     ck.assumptions += ["scipy.optimize.least_squares is numerical: a reported non-convergence (CalculationError) is an honest refusal and is counted, not flagged",
-                       "verbose=True is exercised without the models whose loading() is numerical (Virial, FHVST, WVST) in candidate lists: graphing.plot_model_guesses evaluates every attempt on the "
-                       "pressure points and raises from inside the plot (reported as candidate defects, not part of C12)",
-                       "scipy 1.18 least_squares(method='trf', tr_solver='lsmr') raises IndexError for a one-variable problem: 'lsmr' reaches Henry only together with method='dogbox'"]
+                       "scipy 1.18 least_squares(method='trf', tr_solver='lsmr') raises IndexError for a one-variable problem (upstream, reproduced without pyGAPS): 'lsmr' reaches Henry only together "
+                       "with method='dogbox'; the combination is outside the property's domain (no fit is made)",
+                       "Virial point isotherms from pressure points: one pressure inside 0.5 <= loading/pressure <= 10 only (Virial is outside the quantifier of the point-isotherm clause; its numerical "
+                       "inverse is the subject of C10, known finding S24)"]
